@@ -326,6 +326,40 @@ def rule_edge_for_value(P):
     return R
 
 
+def rule_zero_of_stored(P):
+    """EV*: the transparent edge <0, OMEGA_ZERO> must be chosen by testing the edge value *as stored* (after narrowing to the forest's edge type),
+    not the caller's value: a double that underflows single precision is stored as 0.0f and has to become the zero edge (seed C19b)"""
+    import re
+    R = RuleResult("guard.zero-of-stored", "in forest::getEdgeForValue every choice between OMEGA_ZERO and OMEGA_NORMAL tests the edge value that was just stored (the out-parameter after set()), never the incoming value")
+    for f in P.find(M + "forest::getEdgeForValue"):
+        if not f.get("cfg"):
+            continue
+        g = Graph(f)
+        ps = [x["name"] for x in f.get("params", [])]
+        if len(ps) < 3:
+            raise AnalysisBroken("guard.zero-of-stored: getEdgeForValue no longer has (value, edge value, node) parameters")
+        tin, vout, pout = ps[0], ps[1], ps[2]
+        R.functions.add(f["inst"])
+        for k in g.nodes:
+            if k.kind != "ldef" or k.ev["var"] != pout or "OMEGA_ZERO" not in k.ev.get("rhs", "") or "OMEGA_NORMAL" not in k.ev["rhs"] or "?" not in k.ev["rhs"]:
+                continue
+            cond = k.ev["rhs"].split("?")[0]
+            R.paths += 1
+            iid = "getEdgeForValue: `%s` tests the stored edge value" % re.sub(r"\s+", " ", k.ev["rhs"])[:60]
+            reads_v = re.search(r"(?<!\w)%s(?!\w)" % re.escape(vout), cond) is not None
+            reads_t = re.search(r"(?<!\w)%s(?!\w)" % re.escape(tin), cond) is not None
+            setv = lambda n: n.kind == "call" and n.ev["q"].startswith(M + "edge_value::set") and n.ev.get("recv") == vout
+            unset = g.path(g.entry, lambda n, k=k: n.id == k.id, avoid=setv)
+            if reads_v and not reads_t and unset is None:
+                R.ok(iid, where(f, k.line))
+            else:
+                R.fail(iid, where(f, k.line), Finding(R.rule, f["file"], f["q"], "zero-test@%d" % len(R.instances),
+                       "the zero edge is chosen by testing `%s`%s: a value that becomes 0 only when narrowed to the stored type (a double below float's range) is stored as <0, OMEGA_NORMAL>, a second, non-transparent zero" % (
+                           cond.strip(), "" if unset is None else " before the edge value is stored"), k.line))
+    R.require_floor(2, "OMEGA_ZERO / OMEGA_NORMAL choices")
+    return R
+
+
 def rule_null_op(P):
     R = RuleResult("guard.null-op", "every apply() wrapper tests the operation returned by the factory and throws NOT_IMPLEMENTED when it is null, before calling compute on it")
     for f in sorted(P.fns.values(), key=lambda f: (f["file"], f["line"], f["inst"])):
@@ -386,3 +420,4 @@ def rule_iterator_deref(P):
 
 
 RULES = [rule_ctor_checks, rule_div_zero, rule_sub_infinity, rule_int_overflow, rule_edge_for_value, rule_null_op, rule_iterator_deref]
+VALUE_RULES = [rule_zero_of_stored]
